@@ -1,5 +1,19 @@
 # -*- coding: utf-8 -*-
-"""C09 - names resolve to what was registered; unknown names are #NAME?"""
+"""C09 - names resolve to what was registered; unknown names are #NAME?
+
+case kinds (see RULE for pools and counts):
+  doc      one documented built-in name, called without arguments          oracle + model (name error or not)
+  predef   TRUE / FALSE / NULL, nothing set                                oracle + model
+  var      a name bound by set_variable (optionally set twice), then read  oracle (identity) + model
+  unkvar   a never-set name, another variable set on the same parser       oracle + model
+  var-out  a cell-shaped / dotted name bound as a variable                 model only
+  fn       a call tree over custom recording functions                     oracle (replay of the recorded calls) + model
+  unk      an unknown call / variable in the hole of a context             oracle (if the hole is reached) + model
+  sess     one parse step of a session on one or two long-lived parsers    oracle; model when the step is plain
+  reunk    an unk context with re-entrant calls EV("5") around the hole    oracle (if the hole is reached) + model
+  case     lower- / mixed-case spelling of a registered name               model only
+agree / oracle / nontrivial at the end of the file are guarded wrappers of _agree / _oracle / _nontrivial.
+"""
 import datetime
 import os
 import re
@@ -24,60 +38,168 @@ FUNCTIONS = ['hotxlfp.parser:Parser.__init__', 'hotxlfp.parser:Parser.parse',
              'hotxlfp.grammarparser.lexer:t_ABSOLUTE_CELL', 'hotxlfp.grammarparser.lexer:t_MIXED_CELL',
              'hotxlfp.grammarparser.lexer:t_RELATIVE_CELL', 'hotxlfp.grammarparser.lexer:t_XLERROR',
              'hotxlfp.grammarparser.lexer:t_error']
-RULE = ('(var) seeded names of the VARIABLE shape ^(?![A-Za-z]+[0-9])(?:[A-Za-z][A-Za-z_0-9]+|[A-Za-z_]+)$, lengths 1..12, both '
-        'regex alternatives, names of builtins / of TRUE FALSE NULL / extensions of them, each bound by set_variable to a value of '
-        'every kind (int, big int, float incl. nan/inf, text incl. empty, logical, None, list, nested list, datetime, tuple, dict, '
-        'set, bytes, complex, object, function, each of the nine error values), also set twice; oracle: parse(name)[result] IS the '
-        'value. (unkvar/predef) never-set names -> exactly #NAME?; TRUE FALSE NULL. (fn) call trees over seeded FUNCTION-shaped '
-        'names (incl. dotted, cell-like, builtin names SUM IF PI) bound to recording callables, 0..4 argument slots with literals, '
-        'variables, arrays, blank slots, row pairs, nested calls, three separators; oracle: one recorded call per call site, in '
-        'post-order, arguments identical to the evaluated arguments, value of the call site = what the callable returned. '
-        '(doc) every bullet under "Supported Formulas" of SUPPORTED_FORMULAS.md (complete). (unk) a call of a seeded unregistered '
-        'name with 0..3 arguments, or an unknown variable, placed in the hole of a seeded context: each side of each of the 11 '
-        'binary operators, unary minus, every argument index of builtin and custom calls (IFERROR, ISERROR, IF, SUM ...), array '
-        'elements, row pairs, depth <= 4 quick / 7 thorough, anything after the hole (error literals, 1/0, other unknown calls); '
-        'reachability of the hole is confirmed by running the same formula with a recording function in the hole. '
-        '(sess) seeded SESSIONS of 3..15 set_variable / set_function / parse steps on one or two LONG-LIVED parsers over small name pools '
-        '(2..4 function names drawn from 19 documented built-ins, special and random names; 1..3 variable names incl. TRUE FALSE NULL), '
-        'so that names change role: a built-in is called and only then shadowed, an unknown function / variable is referenced and only '
-        'then registered, variables and functions are re-bound to values of another type / to another callable, two parsers are used '
-        'alternately with registrations on one of them only; plus directed step patterns for each of these and sessions with RE-ENTRANT '
-        "functions (lambda t: p.parse(t)['result'] on the same parser) used inside larger formulas (argument positions, operator "
-        'operands, followed by registered and by unbound names; inner formulas that succeed, reference variables, abort on an unbound '
-        'name with tokens left over, or are no formula). One case per parse step; oracle after every step, for the bindings registered '
-        'AT THAT MOMENT (computed from the session text): an unbound name that is evaluated first -> exactly #NAME?; otherwise one recorded '
-        'call per custom call site in evaluation order with the evaluated arguments, inner evaluations judged the same way, value = what '
-        'the outermost callable returned / the variable\'s value; a formula whose names are all bound or documented is not #NAME?; nothing '
-        'registered on the other parser is called. (reunk) the (unk) contexts in which number / variable leaves are rewritten to '
-        're-entrant calls EV("5") returning the same value, at least one of them evaluated before the hole, optionally preceded by a '
-        're-entrant call whose inner formula fails: still exactly #NAME?, the re-entrant functions called in call-site order. '
-        'Non-trivial = the name was resolved / the hole was reached / the statement had an opinion on the step.')
-TRUSTED = ['the reading of SUPPORTED_FORMULAS.md: the bullets between the heading "Supported Formulas" and the next heading',
-           'values that have no wire form (tuple, dict, set, object, function, nan ...) are judged by the oracle only; the model '
-           'carries them as opaque `other` values',
-           '(sess) the bindings of the moment are computed by the harness from the session text; the recording wrappers of the custom '
-           'functions (a re-entrant one opens a nested call list for the inner evaluation); +, -, * and unary minus of Python ints are '
-           'ints (the only operator results the session oracle computes; any other operator result = no opinion)',
-           '(sess) the model is stateless: each parse step is ONE eval request with the environment of that moment; a re-entrant function '
-           'is given to the model as (const v) with v read off the session text (literal, bound / unbound variable, custom call, int '
-           'arithmetic, abort -> blank) - steps where v is not plain, where one function would need two constants, or whose root operator '
-           'has non-integer operands are judged by the oracle only',
-           '(reunk) reachability of the hole is decided on the formula with the re-entrant calls written back as the literals they '
-           'return (so the probe does not depend on re-entrancy); EV("5") returns what the literal 5 evaluates to']
-ASSUMPTIONS = ['names are compared exactly (case-sensitive): the never-set variable `true` is not `TRUE`; calls of lower-case '
-               'spellings of registered function names (sum(1)) are compared with the model but not judged by the oracle',
+RULE = ('counts: m = 1 quick / 30 thorough and s = 1 quick / 12 thorough, both times scale (5 in quick when the '
+        'fingerprint of a modelled function changed or the Lean build broke); about 4300 cases quick, 77000 thorough. '
+        '(var) 32 special names (names of builtins SUM PI IF, sum, extensions TRUEx xTRUE TRUE_ FALSEy NULLz, true null, '
+        '_ __, single letters, 12 characters) + 500m seeded names of the VARIABLE shape '
+        '^(?![A-Za-z]+[0-9])(?:[A-Za-z][A-Za-z_0-9]+|[A-Za-z_]+)$, lengths 1..12, three shapes (letters and _, letters '
+        'only, a letter then letters / _ / digits), each bound by set_variable to a seeded value: int (incl. 2^31 2^63 '
+        '10^30 -10^25), float (incl. -0.0 1e300 1e-300), one of 14 texts (empty, blank, TRUE, 12, #N/A, non-ASCII, a '
+        'quote, =1+1 ...), logical, None, list of 0..3 values nested to depth 2, datetime, one of the nine error values, '
+        'tuple, dict, set, bytes, complex, host object, object(), function, nan, inf, the type int; 6% are bound instead '
+        'to a value with an == of its own (EqAll: equal to everything; EqRaises: == with a foreign operand raises '
+        'TypeError; EqArray: == returns an object whose truth value raises ValueError); 15% are set twice (the later '
+        'value counts); plus TRUE FALSE NULL each bound to 5, and value_x bound to each of 31 fixed values (one per kind '
+        'above, the three Eq values, the nine error values); oracle: parse(name) gives {result: the value ITSELF '
+        '(identity, its == is never asked), error: None}, {None, None} for None, {None, its code} for an error value. '
+        '(unkvar) the 32 special + 150m seeded names, never set, while another seeded variable is set to 1 on the same '
+        'parser -> exactly {result None, error #NAME?}. (predef) TRUE FALSE NULL with nothing set -> the objects True '
+        'False None. (fn) 450m call trees over 1..3 FUNCTION-shaped names (20% one of the 7 builtin names SUM IF PI '
+        'IFERROR TRUE NA CEILING.MATH; 25% one of 18 special names: dotted a.b x.y.z . .. a., cell-like A1 ab12 LOG11 '
+        'X_1, case variants sum Sum iF, extensions SUMX TRUEX ...; 55% seeded names of 1..11 characters that are no '
+        'builtin), each bound to a recording callable (returns a fresh object 35% / the list of its arguments 25% / its '
+        'first argument 10% / a seeded constant 30%), 0..2 seeded variables; call depth 0..2 quick / 0..3 thorough, 0..4 '
+        'argument expressions per call (nested calls, variables, array literals of 1..3 literals, arrays holding a call, '
+        'int / decimal / text literals) with blank slots (1..2 in front, one between two expressions, one at the end), '
+        'row pairs F(a,b;c,d) of 2..3 by 2..3 in 8%, three separators (comma, semicolon, backslash); oracle: one recorded '
+        'call per call site, in post-order, arguments the same as the evaluated arguments (blank slot = None, array = '
+        'list, row pair = two lists), record of the formula = what the outermost callable returned (identity; None / '
+        'error value as in var). Plus 50 fixed cases: each of 10 names (the 7 and F a.b A1) bound to a constant k in '
+        '2..89 inside NAME(2)+1, -NAME(), NAME(1,2)*NAME("x"), IF(1,NAME(3),0), SUM(NAME(),1000) (CHOOSE / MAX when the '
+        'name is IF / SUM): the exact number and one call per call site. (doc) every bullet under "Supported Formulas" of '
+        'SUPPORTED_FORMULAS.md (complete, 156 names): is_supported(name) and NAME() is not #NAME?. (unk) a call of an '
+        'unregistered name, or a never-set variable, placed in the hole of a context. Systematic: 175 contexts (hole, '
+        '-hole, --hole; each side of each of the 11 binary operators and (1 op hole) op 2; every argument index of '
+        '1..3-argument calls of 20 enclosing functions: the builtins SUM IF IFERROR ISERROR ISERR ISNA IFNA ERROR.TYPE '
+        'AND OR NOT MAX CONCATENATE COUNT ISBLANK CHOOSE T N and the custom G = list of its arguments, ID = first '
+        'argument; array elements and an array inside SUM for each separator; IFERROR / ISERROR nests, either IF branch, '
+        'row pairs of G, an error VALUE 1/0 or NA() before the hole) x 4 fills quick (NOSUCH(1) NOSUCH() SUMM(1) '
+        'nosuchvar) / 22 fills thorough (NOSUCH sumx SUMM S.U.M F1x A1 zz.top Nope_1 . iff with 0 and with 1 argument, '
+        'nosuchvar, true). Seeded: 700m contexts of depth 0..4 quick / 0..7 thorough (unary minus, either side of a '
+        'binary operator, any slot of 1..4-slot calls of the 20 with an optional leading blank slot, array elements, row '
+        'pairs) whose fill is in 20% a seeded variable name + _u, else a seeded or special+q unregistered name called '
+        'with 0..3 safe arguments, blank slots, three separators; before the hole only expressions that evaluate without '
+        'raising over va=53 vb=2.5 v_c="txt" flag=True (numbers, unary minus, + - * / &, comparisons, SUM ID IF, arrays, '
+        'text, TRUE FALSE NULL; the value may be an error VALUE: x/0, NA()), after the hole anything that parses (the '
+        'same, error literals #REF! #N/A #DIV/0! #NULL!, OTHERUNKNOWN(2), another_unknown, -"a"); oracle: exactly the '
+        '#NAME? record, judged when the hole is reached exactly once - decided by running the same context on a second '
+        'parser with a recording function REACHED (same arguments) in the hole. (sess) 4 fixed + 290s seeded SESSIONS of '
+        '3..15 (quick 3..13) set_variable / set_function / parse steps on one or two LONG-LIVED parsers over small name '
+        'pools; one case per parse step (about 1150 quick, 15000 thorough). 150s free sessions: 1..4 function names (40% '
+        'from 19 documented built-ins SUM MAX MIN IF PI ABS IFERROR NA ... ROUND, 20% from the 18 special, 40% seeded), '
+        '1..3 variable names (half from 16 incl. SUM PI _ T TRUE FALSE NULL true, half seeded), two parsers in 25%, steps '
+        'parse 50% / set_function 32% / set_variable 18%; functions are bound to fresh-object / arguments / '
+        "first-argument / constant callables or (10..20%) to RE-ENTRANT ones (lambda t: p.parse(t)['result'] on the same "
+        'parser), variables to a small int (45%) or a value of the var pool (no Eq values); formulas: call depth 0..2, '
+        '0..3 arguments with blank slots, row pairs 6%, at the root a call, a variable, -call, or call op operand with op '
+        'among + - * & = <. So names change role: a built-in is called and only then shadowed, an unknown function / '
+        'variable is referenced and only then registered, variables and functions are re-bound to values of another type '
+        '/ to another callable, two parsers are used alternately with registrations on one of them only. Directed step '
+        'patterns: 30s built-in called - shadowed - called - re-registered - called; 20s unknown function referenced - '
+        'registered - re-registered; 20s one variable referenced - set - read - set to something else - read; 30s two '
+        'parsers alternately (6..13 steps over one built-in, one special name, one variable); 40s with EVALUATE '
+        'registered RE-ENTRANT first and then used inside larger formulas (argument positions, operator operands, '
+        'followed by registered and by unbound names; inner formulas: a number, a decimal, a variable, int arithmetic, '
+        'variable op number, a custom call with 0..3 arguments optionally +/- a number, or the texts #REF! #N/A 1+ ) - so '
+        'they succeed, reference variables, abort on an unbound name with tokens left over, or are no formula). Oracle '
+        'after every parse step, for the bindings registered AT THAT MOMENT on that parser (computed from the session '
+        'text): an unbound name that is evaluated first -> exactly #NAME?; otherwise one recorded call per custom call '
+        'site in evaluation order with the evaluated arguments, inner evaluations judged the same way, value = what the '
+        "outermost callable returned / the variable's value / the int arithmetic of these; a formula whose names are all "
+        'bound or documented is not #NAME?; nothing registered on the other parser is called. (reunk) (unk) contexts (40 '
+        'of the 175 systematic quick / all thorough with one of the 22 fills; 250s seeded ones of depth 0..4 / 0..7 with '
+        'fills of 0..2 arguments) in which 1..2 number / va / vb leaves are rewritten to re-entrant calls EV("5") '
+        'EVB("va") returning the same value, each site under its own name; when none of them is evaluated before the hole '
+        'a call EVx("k"), k in 1..8, is put in front with one of + - * & =; in 35% the whole becomes G(EVF("<inner>"), '
+        '...) with one of 7 inner formulas that FAIL (unbound variable / function alone, under + * or inside SUM, the '
+        'error literal #REF!, the non-formula 1+): still exactly #NAME? when the hole is reached once, the recorded '
+        're-entrant calls are a prefix of the call sites in evaluation order, the 5 inner formulas with an unbound name '
+        'give #NAME?, the inner formulas va / vb give the bound object. (var-out) 7 cell-shaped / dotted names (A1 ab12 '
+        'abc1_x x.y a.b.c Z9 a1b) bound to 3 and (case) sum(1) Sum(1) pi(1) If(1) iferror(1) true True null: compared '
+        'with the model only, no oracle. Model: every case is also evaluated by the Lean model (eval formula + '
+        'environment: variables, functions as const / args / first), except the sess steps that are not plain (see '
+        'TRUSTED; about a fifth of them); compared: the record (ints, text, logicals, error codes, blanks exactly, floats '
+        'within 4 ulps or 1e-12 relative; a model value (o ...) = no opinion is not compared); var / unkvar / predef also '
+        "that the model's only event is the lookup of that variable; fn / sess also that the model's function events are "
+        "the parser's own callFunction events (names and arguments, builtins included, up to the first builtin the model "
+        'does not carry); doc only whether it is a name error. Non-trivial = var / unkvar / predef / doc / var-out: every '
+        'case; fn: at least one custom call was recorded; unk: the hole was reached exactly once; reunk: that, and at '
+        'least one re-entrant call was recorded; sess: the statement had an opinion on the step (most steps; none when an '
+        'operator result other than + - * / unary minus of ints, a text that is no tree, or a re-entrant name whose '
+        'binding and call shape differ is met before any unbound name); case: never. Every case counts once (no bulk '
+        'weights); no time or step budget. search() (a proof or the correspondence broke and no oracle failure yet): all '
+        'streams again with the quick bounds at scale 6, oracle only, up to the first failure.')
+TRUSTED = ['the reading of SUPPORTED_FORMULAS.md: the bullets (- or *, the name optionally in backquotes) between a '
+           'heading that starts with "Supported" and the next heading',
+           "the shapes VAR_RE / FN_RE that admit generated names are hand copies of the lexer's t_VARIABLE (minus the "
+           'cell-like prefix letters+digit) and t_FUNCTION patterns',
+           'values that have no wire form (tuple, dict, set, bytes, complex, objects, functions, types, nan, inf, the Eq '
+           'values) are judged by the oracle only; the model carries them as opaque `other` values (o <type name>), and a '
+           'record whose model value is opaque is not compared (the variable-lookup event still is)',
+           'model comparison by fx.record_matches / value_matches: exact for ints (a logical is not an int), text, '
+           'logicals, error codes, blanks; floats within 4 ulps or 1e-12 relative; datetimes within 2 microseconds (+ '
+           '2^-49 relative); lists element-wise',
+           '(fn) (sess) (reunk) the recording wrappers of the custom functions (fresh object / list of the arguments / '
+           'first argument or None / constant / parse of the argument on the same parser) are the record of what was '
+           "called and with what; the parser's callFunction events (p.on) of the outer evaluation are taken as the "
+           "implementation's event list for the model comparison",
+           '(sess) the bindings of the moment are computed by the harness from the session text; a re-entrant wrapper '
+           'opens a nested call list for the inner evaluation, calls recorded on the other parser are counted apart; +, -, '
+           '* and unary minus of Python ints are ints (the only operator results the session oracle computes; any other '
+           'operator result = no opinion)',
+           '(sess) the model is stateless: each parse step is ONE eval request with the environment of that moment; a '
+           're-entrant function is given to the model as (const v) with v read off the session text (literal, bound / '
+           'unbound variable, custom call, int arithmetic, abort or error value -> blank) - steps where v is not plain (a '
+           'built-in call or an operator result other than int + - * inside the inner formula), where one function would '
+           'need two constants, where a documented built-in would receive something else than ints, finite floats, text, '
+           'blanks and lists of them (logicals, nan, inf, error values, datetimes, tuples, host objects, results of '
+           'ISERROR AND OR NOT TRUE IF), or whose root operator has operands that are not plainly ints / plain aborts are '
+           'judged by the oracle only',
+           '(unk) (reunk) reachability of the hole is decided by a probe on a separate parser with the same variables and '
+           'ID / G, REACHED returning 1; (reunk) the probe runs on the formula with the re-entrant calls written back as '
+           'the literals they return and EVF(...) as NULL (so the probe does not depend on re-entrancy); EV("5") returns '
+           'what the literal 5 evaluates to (given to the model as (const 5), EVF as (const blank))',
+           'the guarded entry points agree / oracle / nontrivial: a TypeError / ValueError raised by the == of an EqRaises '
+           '/ EqArray value while an outcome is compared (recognised by its message) becomes a disagreement / a violation '
+           '(a host value bound for another evaluation reached this one) / non-trivial instead of crashing the harness, '
+           'any other exception propagates; on the unchanged tree these values are only ever looked at by identity']
+ASSUMPTIONS = ['names are compared exactly (case-sensitive): the never-set variables `true` `null` `sum` are not TRUE NULL '
+               'SUM, and sumx( iff( true in a hole, as well as sum( Sum( iF( in a session before they are registered, are '
+               'unbound names -> #NAME?; only the 8 (case) formulas (sum(1), Sum(1), pi(1), true ...) are compared with the '
+               'model but not judged by the oracle',
+               '"resolves to the value that was set / returned" is read as (var) (fn) the very object (identity; the == of the '
+               'value is not consulted), (sess) the very object or, for int / float / text / logical / list values, an equal '
+               'one of the same type (lists element-wise); recorded arguments are compared like that everywhere, so 1, 1.0 and '
+               'TRUE are told apart',
+               'parse reports a blank as {result None, error None} and an error VALUE as {result None, error its code}: a '
+               'variable bound to None or to an error value, or a custom function returning one at the root, must read like '
+               'that',
+               'set_variable of TRUE FALSE NULL overrides the predefined value; a variable may carry the name of a built-in '
+               'function (SUM PI IF) and a custom function the name of a built-in (SUM IF PI TRUE NA ...) or a cell-like / '
+               'dotted name (A1, a.b, .)',
+               'a documented name "is available" = formulas.is_supported(name) and NAME() is not #NAME?; whatever else the '
+               'call without arguments gives (a value, another error, a syntax error) is accepted',
+               '"called with the evaluated arguments": positionally, arguments left to right and before the call (post-order), '
+               'left operand before right; a blank slot arrives as None, an array literal as a list, a row pair as two lists',
                'a value evaluated before the unknown call may be an error VALUE (1/0, NA()); only a RAISED error (an error '
-               'literal, an earlier unknown name) may pre-empt #NAME?, and none is generated before the hole',
+               'literal, an earlier unknown name) may pre-empt #NAME?, and none is generated before the hole; the #NAME? of an '
+               'unbound name is the result of the WHOLE formula, no enclosing IFERROR / ISERROR / ISERR / IFNA catches it; '
+               '(reunk) a re-entrant call in front of the hole whose inner formula fails does not pre-empt it (its function '
+               'returns a blank); a context whose hole is not reached exactly once is not judged (none arises on the unchanged '
+               'tree)',
                'a custom function that raises is outside the statement (C08 covers it)',
-               '"after a variable is set / a function is registered" is read as: until it is set / registered again on the SAME parser; '
-               'bindings are per parser instance, a later set_function takes precedence over a built-in even if the built-in was '
-               'already called on that parser, and an earlier #NAME? for a name does not outlast its registration',
-               'a custom function may evaluate formula text on the parser that is calling it; the statement applies to the inner and to '
-               'the outer formula alike (the tokens after the call site belong to the outer formula)',
-               'in a formula that aborts with #NAME? the statement does not say which call sites after the unbound name are called: '
-               'only the result is judged there (reunk: the recorded re-entrant calls must be a prefix of the call sites in order)',
-               'the value of a documented built-in is not this property\'s subject: the session oracle treats it as unknown (it matches '
-               'any argument) and only demands that the formula is not #NAME? (unless a #NAME? error VALUE is bound at that moment)']
+               '"after a variable is set / a function is registered" is read as: until it is set / registered again on the '
+               'SAME parser; bindings are per parser instance, a later set_function takes precedence over a built-in even if '
+               'the built-in was already called on that parser, and an earlier #NAME? for a name does not outlast its '
+               'registration',
+               'a custom function may evaluate formula text on the parser that is calling it; the statement applies to the '
+               'inner and to the outer formula alike (the tokens after the call site belong to the outer formula)',
+               'in a formula that aborts with #NAME? the statement does not say which call sites after the unbound name are '
+               'called: the calls recorded up to it and the result are judged there (reunk: the recorded re-entrant calls must '
+               'be a prefix of the call sites in order)',
+               "the value of a documented built-in is not this property's subject: the session oracle treats it as unknown (it "
+               'matches any argument) and only demands that the formula is not #NAME? (unless a #NAME? error VALUE is bound at '
+               'that moment)']
 EXHAUSTIVE = {'quick': False, 'thorough': False}
 
 VAR_RE = re.compile(r'(?![A-Za-z]+[0-9])(?:[A-Za-z][A-Za-z_0-9]+|[A-Za-z_]+)')
@@ -745,9 +867,10 @@ def subst(t, path, fn):
 
 
 def make_reunk(rng, ctx, fill):
-    """replace up to three numeric leaves `5` / `va` of the context by re-entrant calls EV("5") / EV("va") that return the very
+    """replace one or two numeric leaves `5` / `va` of the context by re-entrant calls EV("5") / EVB("va") that return the very
     same value (so whatever was safe stays safe), each call site under its own function name; at least one such call is evaluated
-    before the hole; sometimes put a re-entrant call whose inner formula FAILS in front of everything"""
+    before the hole (if none is, a third one EVx("k") is put in front); in 35% put a re-entrant call EVF whose inner formula FAILS
+    in front of everything"""
     paths = leaf_paths(ctx)
     plain = ctx
     if paths:
